@@ -22,6 +22,7 @@ func init() {
 			a.sexpDiscipline("S.sexp")
 			a.randomDiscipline("E.random")
 			a.akeStateInvariant("T.ake-state")
+			a.retireImpliesMove()
 			a.fragmentResetBeforeDispatch("S.fragment-reset")
 		})
 }
